@@ -95,8 +95,10 @@ def compare_outputs(base, other, idx_base, idx_other, what, us):
     msgs = []
     bcen, bref, bh, be = (np.asarray(a, dtype=np.float64) for a in base)
     ocen, oref, oh, oe = (np.asarray(a, dtype=np.float64) for a in other)
+    fin = np.isfinite(bh)
+    hmax = float(np.abs(bh[fin]).max()) if fin.any() else 1.0     # the round-off of a batched FFT scales with the data
     for ib, io in zip(idx_base, idx_other):
-        tol_h = 1e-5 * max(abs(bh[ib]), 1.0)
+        tol_h = 1e-5 * max(abs(bh[ib]), hmax)
         if not np.isfinite([bh[ib], oh[io], be[ib], oe[io]]).all() or not np.isfinite(bref[ib]).all():
             if not (np.array_equal(bh[ib], oh[io], equal_nan=True) and np.array_equal(bref[ib], oref[io], equal_nan=True)):
                 msgs.append(f"{what}: non-finite results differ at peak #{ib}")
@@ -111,7 +113,7 @@ def compare_outputs(base, other, idx_base, idx_other, what, us):
         rt = 1e-5 * max(np.abs(bref[ib]).max(), 1.0)
         if np.abs(bref[ib] - oref[io]).max() > rt:
             msgs.append(f"{what}: refined differs at peak #{ib}: {bref[ib]} vs {oref[io]}")
-        if abs(be[ib] - oe[io]) > 1e-5 * max(abs(be[ib]), 1.0):
+        if abs(be[ib] - oe[io]) > 1e-5 * max(abs(be[ib]), hmax):
             msgs.append(f"{what}: elevation differs at peak #{ib}: {be[ib]} vs {oe[io]}")
     return msgs
 
@@ -139,6 +141,8 @@ def run_case(kind, params):
     rng = np.random.default_rng(params["seed"])
     shape = tuple(params["shape"])
     frame = impl.noise_frame(rng, shape, params["frame_kind"])
+    if params.get("scale"):       # the same frame in other units (normalised intensities, low dose): float32 data
+        frame = (frame * np.float32(params["scale"])).astype(np.float32)
     pattern = impl.pattern_from(params["pattern"])
     peaks = np.asarray(params["peaks"], dtype=np.int64)
     n = len(peaks)
@@ -186,7 +190,8 @@ def gen_case(rng, k):
             "frame_kind": ("poisson", "gauss", "disks")[k % 3], "pattern": pat,
             "peaks": peaks.tolist(), "bufs": bufs, "perm": rng.permutation(n).tolist(),
             "keep": keep.tolist(), "upsample": [False, False, 5, True][k % 4],
-            "pipeline": "fast" if k % 2 == 0 else "full"}
+            "pipeline": "fast" if k % 2 == 0 else "full",
+            "scale": [None, None, 1e-6, None, 1e-3, 1e-9][(k // 2) % 6]}
 
 
 def search(ctx, boost=1, focus=()):
